@@ -677,6 +677,66 @@ fn struct_from_repr(ast: &DeriveInput, imp: &syn::ItemImpl) -> Result<String, St
                consts.join(";"), arms.join(";"), wild.unwrap_or_else(|| "missing".to_string())))
 }
 
+
+// ---------------------------------------------------------------------------------------------------
+// EnumProperty: the three getters as tables  variant -> [(key literal, value literal)]  + wildcards, the shape of the model's props_code
+// ---------------------------------------------------------------------------------------------------
+fn struct_props(ast: &DeriveInput, ts: proc_macro2::TokenStream) -> Result<String, String> {
+    let f: syn::File = syn::parse2(ts).map_err(|e| format!("tokens do not parse: {}", e))?;
+    let im = f.items.iter().find_map(|it| match it { syn::Item::Impl(im) if im.trait_.as_ref().map(|(_, p, _)| p.segments.last().map(|s| s.ident == "EnumProperty").unwrap_or(false)).unwrap_or(false) => Some(im), _ => None })
+        .ok_or("impl EnumProperty not found")?;
+    let mut parts: Vec<String> = Vec::new();
+    for (fname, tag) in [("get_str", "str"), ("get_int", "int"), ("get_bool", "bool")] {
+        let m = im.items.iter().find_map(|ii| match ii { syn::ImplItem::Fn(m) if m.sig.ident == fname => Some(m), _ => None }).ok_or(format!("no fn {}", fname))?;
+        let key_param = match m.sig.inputs.iter().nth(1) { Some(syn::FnArg::Typed(pt)) => match &*pt.pat { syn::Pat::Ident(i) => i.ident.to_string(), _ => return Err("key parameter pattern".into()) }, _ => return Err("no key parameter".into()) };
+        let mm = match m.block.stmts.as_slice() { [syn::Stmt::Expr(syn::Expr::Match(mm), None)] => mm, _ => return Err("body is not a single match".into()) };
+        if !matches!(&*mm.expr, syn::Expr::Path(p) if p.path.is_ident("self")) { return Err("outer match does not scrutinise self".into()); }
+        let mut out: Vec<String> = Vec::new();
+        let mut seen_wild = false;
+        for a in &mm.arms {
+            if seen_wild { return Err("an arm after the wildcard".into()); }
+            if a.guard.is_some() { return Err("guarded arm".into()); }
+            if let syn::Pat::Wild(_) = &a.pat {
+                if !is_none_expr(&a.body) { return Err("outer wildcard is not None".into()); }
+                out.push("W".to_string()); seen_wild = true; continue;
+            }
+            let mut p = &a.pat;
+            while let syn::Pat::Reference(r) = p { p = &r.pat; }
+            let (vi, _) = pat_variant(ast, p)?;
+            let mut body = &*a.body;
+            loop { match body { syn::Expr::Block(b) if b.block.stmts.len() == 1 => match &b.block.stmts[0] { syn::Stmt::Expr(e, None) => body = e, _ => return Err("arm block".into()) }, _ => break } }
+            let inner = match body { syn::Expr::Match(im2) => im2, _ => return Err("arm body is not a match on the key".into()) };
+            if !matches!(&*inner.expr, syn::Expr::Path(p) if p.path.is_ident(&key_param)) { return Err("inner match does not scrutinise the key".into()); }
+            let mut kv: Vec<String> = Vec::new();
+            let mut inner_wild = false;
+            for ia in &inner.arms {
+                if inner_wild { return Err("a key arm after the inner wildcard".into()); }
+                if ia.guard.is_some() { return Err("guarded key arm".into()); }
+                match &ia.pat {
+                    syn::Pat::Wild(_) => { if !is_none_expr(&ia.body) { return Err("inner wildcard is not None".into()); } inner_wild = true; }
+                    syn::Pat::Lit(pl) => {
+                        let key = match &pl.lit { syn::Lit::Str(sx) => sx.value(), _ => return Err("key pattern is not a string literal".into()) };
+                        let val = strip_result(&ia.body, "Some").ok_or("key arm body is not Some(..)")?;
+                        let shown = match (&val, tag) {
+                            (syn::Expr::Lit(l), "str") => match &l.lit { syn::Lit::Str(sx) => hex(&sx.value()), _ => return Err("get_str value is not a string literal".into()) },
+                            (syn::Expr::Lit(l), "int") => match &l.lit { syn::Lit::Int(n) => n.base10_parse::<i128>().map_err(|e| format!("integer literal: {}", e))?.to_string(), _ => return Err("get_int value is not an integer literal".into()) },
+                            (syn::Expr::Unary(u), "int") if matches!(u.op, syn::UnOp::Neg(_)) => match &*u.expr { syn::Expr::Lit(l) => match &l.lit { syn::Lit::Int(n) => (-n.base10_parse::<i128>().map_err(|e| format!("integer literal: {}", e))?).to_string(), _ => return Err("negated non-integer".into()) }, _ => return Err("negated non-literal".into()) },
+                            (syn::Expr::Lit(l), "bool") => match &l.lit { syn::Lit::Bool(b) => (if b.value { "true" } else { "false" }).to_string(), _ => return Err("get_bool value is not a boolean literal".into()) },
+                            _ => return Err("value is not a literal of the getter's type".into()),
+                        };
+                        kv.push(format!("{}={}", hex(&key), shown));
+                    }
+                    _ => return Err("unrecognised key pattern".into()),
+                }
+            }
+            if !inner_wild { return Err("inner match without wildcard".into()); }
+            out.push(format!("v{}{{{}}}", vi, kv.join(",")));
+        }
+        parts.push(format!("{}=[{}]", tag, out.join(";")));
+    }
+    Ok(parts.join("|"))
+}
+
 fn fnv(h: &mut u64, s: &str) { for b in s.bytes() { *h ^= b as u64; *h = h.wrapping_mul(0x100000001b3); } *h ^= 10; *h = h.wrapping_mul(0x100000001b3); }
 
 fn valid_ident(s: &str) -> bool {
@@ -764,6 +824,8 @@ fn main() {
                                         Ok(Ok(s)) => s, Ok(Err(m)) => format!("unparsed:{}", m), Err(_) => "unparsed:panic in the token reader".to_string() }
                                 }
                                 "EnumIter" => match std::panic::catch_unwind(std::panic::AssertUnwindSafe(|| struct_iter(&ast, ts))) {
+                                    Ok(Ok(s)) => s, Ok(Err(m)) => format!("unparsed:{}", m), Err(_) => "unparsed:panic in the token reader".to_string() },
+                                "EnumProperty" => match std::panic::catch_unwind(std::panic::AssertUnwindSafe(|| struct_props(&ast, ts))) {
                                     Ok(Ok(s)) => s, Ok(Err(m)) => format!("unparsed:{}", m), Err(_) => "unparsed:panic in the token reader".to_string() },
                                 _ => "unparsed:no structural reader for this derive".to_string(),
                             },
